@@ -135,14 +135,22 @@ def gen_C07(rnd, n, tier):
              "F0": {"widths": {"default": 6}}}
     for i in range(max(20, n // 10)):
         text = " ".join("".join(rnd.choice("abcWi") for _ in range(rnd.randint(1, 6))) for _ in range(rnd.randint(3, 12)))
-        form = rnd.choice(["none", "font", "len", "font,len", "len,font", "named", "font+named", "len+named", "allnamed", "zero"])
+        form = rnd.choice(["none", "font", "len", "font,len", "len,font", "named", "font+named", "len+named", "allnamed", "zero", "hexlen", "hexnamed", "octlen"])
         params = {"none": "", "font": ', "F2"', "len": ", 55", "font,len": ', "F2", 33', "len,font": ', 33, "F2"',
                   "named": ", numLines=3", "font+named": ', "F2", cursorOverlapWidth=7, numLines=1', "len+named": ", 44, fontId=\"F2\"",
-                  "allnamed": ', fontId="F0", maxLineLength=30, numLines=2, cursorOverlapWidth=4', "zero": ", 0, numLines=0"}[form]
+                  "allnamed": ', fontId="F0", maxLineLength=30, numLines=2, cursorOverlapWidth=4', "zero": ", 0, numLines=0",
+                  "hexlen": ', "F2", 0x21', "hexnamed": ', fontId="F2", maxLineLength=0x2C, numLines=0x1, cursorOverlapWidth=0x7', "octlen": ", 050"}[form]
         src = 'text T {\n  format("%s"%s)\n}\n' % (text, params)
         cfg = Cfg(fontdefault="F1", fonts=fonts, maxlen=rnd.choice([0, 0, 60]), deffont=rnd.choice(["", "", "F2"]))
         want = None
-        out.append(Case(compile_line(cfg, src), src, cfg, {"params": form}))
+        meta = {"params": form}
+        # number literals are read like Go literals (0x.., leading 0 = octal): the resolved geometry
+        expect = {"hexlen": ("F2", 33, 3, 0), "hexnamed": ("F2", 44, 1, 7), "octlen": (None, 40, None, None)}.get(form)
+        if expect is not None:
+            fid = expect[0] or (cfg.deffont or "F1"); f = fonts[fid]
+            meta["geom"] = (text, expect[1], expect[3] if expect[3] is not None else f.get("cursorOverlapWidth", 0),
+                            expect[2] if expect[2] is not None else (f.get("numLines", 0) or 2), f["widths"])
+        out.append(Case(compile_line(cfg, src), src, cfg, meta))
     # several format() calls under different fonts in one file (one font configuration object serves
     # the whole parse): every text must be laid out with the widths of its own font
     for i in range(max(20, n // 10)):
@@ -179,6 +187,12 @@ def oracle_C07(case, res):
         return None
     if "text" not in m:
         if res["kind"] != "OK": return "valid format() parameters rejected: %s" % res.get("msg")
+        if "geom" in m:
+            from cases_data import text_blocks
+            texts, _ = text_blocks(res["text"]); got = texts.get("T") or []
+            outv = "\n".join(c for _, c in got); text, mx, ov, nl, widths = m["geom"]
+            e = check_format(text, mx, ov, nl, widths, outv[:-1] if outv.endswith("$") else outv)
+            if e: return "format() parameters %s: laid out for other values than written (%d px, overlap %d, %d lines): %s" % (m["params"], mx, ov, nl, e)
         return None
     if m["fid"] == "NOPE":
         if res["kind"] != "ERR": return "unknown font accepted"
@@ -208,6 +222,11 @@ def gen_C17(rnd, n, tier):
     base.append((Case(compile_line(base_cfg(), mclash), mclash, base_cfg(), {}), 8))
     src = 'script S {\n  msgbox(format("aa bb", "NOPE"))\n}\n'
     base.append((Case(compile_line(repo_cfg(), src), src, repo_cfg(), {}), 6))
+    # no default font id anywhere, several fonts with different metrics, format() without a font id
+    nodef = Cfg(fonts={"narrow": {"maxLineLength": 60, "widths": {"default": 2}}, "wide": {"maxLineLength": 60, "widths": {"default": 10}},
+                       "mid": {"maxLineLength": 60, "widths": {"default": 5}}, "huge": {"maxLineLength": 60, "widths": {"default": 30}}})
+    src_nd = 'text Greeting { format("Hello there traveller how are you today my friend") }\n'
+    base.append((Case(compile_line(nodef, src_nd), src_nd, nodef, {}), 8))
     many = Cfg(fonts={("F%d" % k): {"widths": {}} for k in range(8)})
     base.append((Case(compile_line(many, src), src, many, {}), 6))
     src2 = 'text T { poryswitch(V) { A: "x" } }\nscript S { poryswitch(W) { Q: a } }\n'
@@ -289,9 +308,12 @@ def gen_C18(rnd, n, tier):
                     out.append(Case(compile_line(base.copy(lint=True), src), src, base.copy(lint=True), {"mode": "lint"}, group=("x", k)))
     for i in range(n):
         x = rnd.random()
-        if x < 0.55:
+        if x < 0.53:
             tg = TopGen(rnd, tier); src = tg.gen(rnd.randint(1, 3))
             for _ in range(rnd.choice([0, 0, 1, 1, 2, 3])): src = mutate(src, rnd)     # well-formed programs are inputs too
+        elif x < 0.57:
+            src = rnd.choice(["const FLAG_DONE = FLAG_DONE\n\nscript S {\n\tsetflag(FLAG_DONE)\n}", "const OBJ_A = OBJ_B\nconst OBJ_B = OBJ_A\nscript S { turn(OBJ_A, OBJ_B) if (var(OBJ_B) == OBJ_A) { x } }",
+                              "const K = K + 1\nmart M { K }\nscript S { switch (var(K)) { case K: a } }", "const A = B\nconst B = C\nconst C = A\nmapscripts M { T [ A, B: C ] }"])
         elif x < 0.7:
             from cases_data import Pory
             src = Pory(rnd).program()[0]
@@ -340,11 +362,11 @@ def oracle_C18_pair(cn, rn, cl, rl):
     return None
 
 # ---------------- C19 ----------------
-IDENTS = ["foo", "é", "naïve_1", "_x", "script", "if", "TRUE", "value", "ünï"]
+IDENTS = ["foo", "é", "naïve_1", "_x", "script", "if", "TRUE", "value", "ünï", "𝒳x", "VAR_𝒳"]
 NUMS = ["0", "7", "42", "-3", "0x1F", "007", "0x", "0x1f", "0xdeadBEEF", "0xa"]
 PUNCT = ["(", ")", "{", "}", "[", "]", ",", ":", "*", "=", "==", "!=", "!", "<", "<=", ">", ">=", "&&", "||"]
-ILLEGAL = ["+", "€", "&", "|", "-", "@", "/"]
-STRS = ['"hi"', '"héllo wörld"', '""', '"a\\pb$"']
+ILLEGAL = ["+", "€", "&", "|", "-", "@", "/", "😀"]
+STRS = ['"hi"', '"héllo wörld"', '""', '"a\\pb$"', '"𠮷野$"', '"😀 ok"']
 TYPED = ['ascii"x"', 'braille"é"']
 RAW = ['`raw é\n  text`', '``']
 
@@ -469,7 +491,7 @@ def gen_C20(rnd, n, tier):
     kinds = ["break_outside", "continue_outside", "continue_not_last", "dup_case", "two_defaults", "const_redef",
              "text_clash", "movement_clash", "label_clash", "label_text_clash", "continue_in_switch_only",
              "continue_after_loop_in_switch", "break_after_closed_loop", "continue_after_closed_loop",
-             "dup_case_const", "dup_case_const_rev", "dup_case_multi", "label_clash_forward", "continue_not_last_in_case"]
+             "dup_case_const", "dup_case_const_rev", "dup_case_multi", "label_clash_forward", "continue_not_last_in_case", "label_clash_nested"]
     for i in range(n):
         kind = kinds[i % len(kinds)]
         pre = p_block(plain_body(rnd), 1)      # statements before, inside script S
@@ -539,6 +561,15 @@ def gen_C20(rnd, n, tier):
             cs = rnd.choice(["    case 1:", "    default:"])
             body = bl + ["  while (flag(L)) {", "    switch (var(V)) {", cs, "      continue", "      second", "    case 2:", "      c", "    }", "  }"]
             line = len(head) + 1 + len(bl) + 4
+            src = assemble(head, body)
+        elif kind == "label_clash_nested":
+            # the clashing label sits inside the body of a do-while / while / switch case / else block
+            lab = rnd.choice(["S_1", "S_2", "S_Text_0"])
+            inner = ["      x", "      %s:" % lab, "      y"]
+            opn, cls = rnd.choice([(["  do {"], ["  } while (flag(L))"]), (["  while (flag(L)) {"], ["  }"]), (["  switch (var(V)) {", "    case 1:"], ["  }"]),
+                                   (["  if (flag(A)) {", "    a", "  } else {"], ["  }"]), (["  while (flag(M)) {", "    do {"], ["    } while (flag(L))", "  }"])])
+            pre2 = ['  msgbox("hi")'] if lab == "S_Text_0" else []
+            body = pre2 + opn + inner + cls + ["  z"]; line = len(head) + 1 + len(pre2) + len(opn) + 2
             src = assemble(head, body)
         elif kind == "label_clash":
             body = ["  if (flag(A)) {", "    a", "  }", "  S_1:", "  b"]; line = len(head) + 1 + 4
